@@ -235,6 +235,11 @@ class SessionReplayer:
             elif kind == "fit_fractions":
                 res = [self.res[i] for i in arg[0]]
                 fit_fractions(self.amp, self.probe, res=res, batch=1000, method="new" if arg[1] else "old")
+            elif kind == "plot_weights":
+                from tf_pwa.config_loader.plotter import PlotAllData
+
+                res = [[self.res[i]] for i in (1, 2, 3)] + [[self.res[i] for i in (1, 2, 3)]]
+                PlotAllData(self.amp, self.probe, self.probe, res=res)
             else:
                 raise ValueError(kind)
         except Injected as e:
